@@ -148,9 +148,72 @@ def build():
         ],
         ensures_exc=['ran_count <= 1'])
 
+    add_pending_filter(w)
     fam = Family('contracts.routing', w)
     fam.replay['BaseModelMutation.is_mutable'] = replay_is_mutable
     return fam
+
+
+def add_pending_filter(w):
+    """get_app_pending_mutations: only mutations on models whose signature differs on THIS database are kept
+    (the signature passed in is the router-filtered one, so this is what skips models routed elsewhere)."""
+    EVUTIL = 'django_evolution/utils/evolutions.py'
+    w.kinds['Str'] = K.Str
+    w.cls('ModelSig', {'model_name': K.Str})
+    w.cls('AppSig2', {'_model_sigs': K.Map(K.Str, K.Ref('ModelSig'))},
+          views={'model_sigs': ('_model_sigs', 'values')})
+    w.cls('ProjectSig2', {})
+    w.cls('RenameModel', {}, bases=['BaseModelMutation'])
+    w.stub('ModelSig.__eq__', params={'self': K.Ref('ModelSig'), 'other': K.Ref('ModelSig')}, returns=K.Bool,
+           pure=True, note='ModelSignature.__eq__ (C05 puts it under contract); here an uninterpreted relation')
+    w.stub('AppSig2.get_model_sig', params={'self': K.Ref('AppSig2'), 'model_name': K.Str},
+           returns=K.Opt(K.Ref('ModelSig')), pure=True,
+           ensures=['iff(result is None, model_name not in self._model_sigs)',
+                    'implies(result is not None, result is self._model_sigs[model_name])'],
+           note='verified in contracts.sigsim')
+    w.stub('AppSig2.is_empty', params={'self': K.Ref('AppSig2')}, returns=K.Bool, pure=True,
+           ensures=['result == (len(self._model_sigs) == 0)'], note='return not bool(self._model_sigs)')
+    w.stub('ProjectSig2.get_app_sig', params={'self': K.Ref('ProjectSig2'), 'app_id': K.Str},
+           returns=K.Opt(K.Ref('AppSig2')), pure=True, note='verified in contracts.sigsim')
+    w.stub('get_app_mutations', params={'app': K.Atom('App'), 'evolution_labels': K.Seq(K.Str), 'database': K.Str},
+           returns=K.Seq(MUT))
+    # a model counts as changed when its current signature differs from the stored one, or it is gone
+    CHANGED = ("(exists(range(log_len(A._model_sigs)), lambda q: live(A._model_sigs, q) and "
+               "   O.get_model_sig(A._model_sigs[key_at(A._model_sigs, q)].model_name) not in "
+               "       (None, A._model_sigs[key_at(A._model_sigs, q)]) and "
+               "   k == A._model_sigs[key_at(A._model_sigs, q)].model_name) or "
+               " exists(range(log_len(O._model_sigs)), lambda q: live(O._model_sigs, q) and "
+               "   A.get_model_sig(O._model_sigs[key_at(O._model_sigs, q)].model_name) is None and "
+               "   k == O._model_sigs[key_at(O._model_sigs, q)].model_name))")
+    w.define('changed_in', ['k', 'A', 'O'], CHANGED)
+    KEEP = ("(not dtype_in(m, 'BaseModelMutation') or dtype_is(m, 'RenameModel') or "
+            " changed_in(model_name_of(m), some(some(project_sig).get_app_sig(get_app_label(app))), "
+            "            some(some(old_project_sig).get_app_sig(get_app_label(app)))))")
+    w.define('keep', ['m', 'app', 'old_project_sig', 'project_sig'], KEEP)
+    w.spec_funcs['dtype_in'] = lambda it, v, name: K.vbool(__import__('z3').Or(*[
+        it.p.ctx.dtype(v.t) == it.p.ctx.class_id(c) for c in it.w.subclasses(__import__('z3').simplify(name.t).as_string())]))
+    w.spec_funcs['model_name_of'] = lambda it, v: it.heap_read(v, 'BaseModelMutation.model_name', K.Str)
+    BOTH = ("some(old_project_sig).get_app_sig(get_app_label(app)) is not None and "
+            "some(project_sig).get_app_sig(get_app_label(app)) is not None")
+    w.contract(
+        'get_app_pending_mutations', module=EVUTIL, serves=['C16'],
+        params={'app': K.Atom('App'), 'evolution_labels': K.Seq(K.Str), 'mutations': K.Opt(K.Seq(MUT)),
+                'old_project_sig': K.Opt(K.Ref('ProjectSig2')), 'project_sig': K.Opt(K.Ref('ProjectSig2')),
+                'database': K.Str},
+        defaults={'mutations': None, 'old_project_sig': None, 'project_sig': None, 'database': 'default'},
+        requires=['mutations is not None', 'old_project_sig is not None', 'project_sig is not None'],
+        returns=K.Seq(MUT),
+        ensures=[
+            'forall(range(len(result)), lambda j: exists(range(len(some(mutations))), lambda i: sel(result, j) is sel(some(mutations), i)))',
+            # with a stored and a current signature for the app: exactly the mutations that touch a model whose
+            # signature differs on this database (plus model renames and non-model mutations) survive, in order
+            'implies(%s, forall(range(len(result)), lambda j: keep(sel(result, j), app, old_project_sig, project_sig)))' % BOTH,
+            'implies(%s, forall(range(len(some(mutations))), lambda i: implies(keep(sel(some(mutations), i), app, old_project_sig, project_sig), '
+            '        exists(range(len(result)), lambda j: sel(result, j) is sel(some(mutations), i)))))' % BOTH,
+            'implies(not (%s), result == some(mutations))' % BOTH,
+        ],
+        note='the three defaulting branches (load mutations / stored signature / current signature from the database) '
+             'are excluded by the precondition: callers on the evolve path pass or default them, ORM access is trusted')
 
 
 def replay_is_mutable(label, inputs):
